@@ -266,6 +266,8 @@ pub fn dispatch(cmd: &str, name: &str, arg: &str) -> Option<String> {
     if name.starts_with("skip.") { return dispatch_skipgrad(cmd, name, arg); }
     if name.starts_with("learn.") { return dispatch_schedule(cmd, name, arg); }
     if name.starts_with("validate.") { return dispatch_validate(cmd, name, arg); }
+    if name.starts_with("feedback.") { return dispatch_feedback(cmd, name, arg); }
+    if name.starts_with("reshape.") { return dispatch_reshape(cmd, name, arg); }
     if !["conv", "deconv", "pool"].iter().any(|p| name.starts_with(p)) { return None; }
     std::panic::set_hook(Box::new(|_| {}));
     if cmd == "run" {
@@ -652,5 +654,118 @@ pub fn dispatch_validate(cmd: &str, name: &str, arg: &str) -> Option<String> {
         tried += 1;
         if let Err(e) = one(n, sm, outs, seed) { return Some(format!("{{\"failed\":true,\"tried\":{},\"input\":{},\"detail\":{:?}}}", tried, fmt(n, sm, outs, seed), e)); }
     }}}}
+    Some(format!("{{\"failed\":false,\"tried\":{}}}", tried))
+}
+
+// ------------------------------------------------------------------------------------------------ feedback blocks (C11)
+/// the statement of C11 executed literally on a block of `len` dense 2->2 layers (integer weights), `loops` repetitions
+pub fn feedback_one(len: usize, loops: usize, inskips: bool, outskips: bool, acc: usize, seed: u64) -> Result<(), String> {
+    let mut rng = Lcg(seed.wrapping_mul(7919).wrapping_add(31));
+    let mut layers: Vec<crate::network::Layer> = Vec::new();
+    for j in 0..len {
+        let mut d = crate::dense::Dense::create(Shape::Single(2), Shape::Single(2), if j % 2 == 0 { &Activation::Linear } else { &Activation::ReLU }, true, None);
+        d.weights = Tensor::double(vec![vec![rng.int(-1, 1), rng.int(-1, 2)], vec![rng.int(-1, 1), rng.int(-1, 1)]]);
+        d.bias = Some(Tensor::single(vec![rng.int(-1, 1), rng.int(-1, 1)]));
+        layers.push(crate::network::Layer::Dense(d));
+    }
+    let first: Vec<crate::dense::Dense> = layers.iter().map(|l| match l { crate::network::Layer::Dense(d) => d.clone(), _ => unreachable!() }).collect();
+    let block = crate::feedback::Feedback::create(layers, loops, inskips, outskips, acc_of(acc));
+    let x = Tensor::single(vec![rng.int(-2, 2), rng.int(1, 2)]);
+    let (_, got, _, _, _) = block.forward(&x);
+    // reference: L-fold repeated application with shared weights
+    let combine = |a: &Tensor, others: &[Tensor]| -> Tensor {
+        let mut r = a.clone();
+        match acc {
+            0 => for o in others { r.add_inplace(o); },
+            1 => for o in others { r.sub_inplace(o); },
+            2 => for o in others { r.mul_inplace(o); },
+            3 => r = others.last().unwrap().clone(),
+            _ => { let refs: Vec<&Tensor> = others.iter().collect(); r.mean_inplace(&refs); }
+        }
+        r
+    };
+    let mut outs: Vec<Tensor> = Vec::new();          // output of every repetition
+    let mut cur = x.clone();
+    for rep in 0..loops {
+        if rep > 0 && inskips { cur = combine(&cur, &[x.clone()]); }
+        for d in &first { cur = d.forward(&cur).1; }
+        outs.push(cur.clone());
+    }
+    let mut want = outs[loops - 1].clone();
+    if outskips && loops > 1 { want = combine(&want, &outs[..loops - 1]); }
+    if !close_all(&got.get_flat(), &want.get_flat()) {
+        return Err(format!("Feedback::forward = {:?} but the repeated, skip-combined layer sequence gives {:?}", got.get_flat(), want.get_flat()));
+    }
+    Ok(())
+}
+pub fn dispatch_feedback(cmd: &str, name: &str, arg: &str) -> Option<String> {
+    if name != "feedback.forward" { return None; }
+    if std::env::var("VERIF_SHOW_PANIC").is_err() { std::panic::set_hook(Box::new(|_| {})); }
+    let fmt = |l: usize, n: usize, i: bool, o: bool, a: usize, s: u64| format!("{{\"layers\":{},\"loops\":{},\"inskips\":{},\"outskips\":{},\"accumulation\":{},\"seed\":{}}}", l, n, i as usize, o as usize, a, s);
+    let one = |l: usize, n: usize, i: bool, o: bool, a: usize, s: u64| -> Result<(), String> {
+        match std::panic::catch_unwind(move || feedback_one(l, n, i, o, a, s)) { Ok(r) => r, Err(_) => Err("Feedback::create / forward panicked on a valid block".into()) }
+    };
+    if cmd == "run" {
+        let v: Vec<u64> = arg.split(|c: char| !c.is_ascii_digit()).filter(|x| !x.is_empty()).filter_map(|x| x.parse().ok()).collect();
+        if v.len() != 6 { return None; }
+        return Some(match one(v[0] as usize, v[1] as usize, v[2] != 0, v[3] != 0, v[4] as usize, v[5]) {
+            Ok(()) => format!("{{\"failed\":false,\"input\":{}}}", fmt(v[0] as usize, v[1] as usize, v[2] != 0, v[3] != 0, v[4] as usize, v[5])),
+            Err(e) => format!("{{\"failed\":true,\"input\":{},\"detail\":{:?}}}", fmt(v[0] as usize, v[1] as usize, v[2] != 0, v[3] != 0, v[4] as usize, v[5]), e),
+        });
+    }
+    let mut tried = 0usize;
+    for l in 1..=3usize { for n in 1..=4usize { for i in [false, true] { for o in [false, true] { for a in 0..5usize { for s in 0..2u64 {
+        tried += 1;
+        if let Err(e) = one(l, n, i, o, a, s) { return Some(format!("{{\"failed\":true,\"tried\":{},\"input\":{},\"detail\":{:?}}}", tried, fmt(l, n, i, o, a, s), e)); }
+    }}}}}}
+    Some(format!("{{\"failed\":false,\"tried\":{}}}", tried))
+}
+
+// ------------------------------------------------------------------------------------------------ reshape / flatten (C14)
+pub fn reshape_one(c: usize, h: usize, w: usize, c2: usize, h2: usize, w2: usize) -> Result<(), String> {
+    let n = c * h * w;
+    let data: Vec<Vec<Vec<f32>>> = (0..c).map(|a| (0..h).map(|b| (0..w).map(|d| ((a * h + b) * w + d) as f32).collect()).collect()).collect();
+    let t = Tensor::triple(data);
+    let seq: Vec<f32> = (0..n).map(|i| i as f32).collect();
+    if t.get_flat() != seq { return Err("get_flat is not the row-major sequence".into()); }
+    let f = t.flatten();
+    if f.get_flat() != seq || !matches!(f.shape, Shape::Single(m) if m == n) { return Err("flatten does not keep the row-major sequence / records a wrong shape".into()); }
+    let back = f.get_triple(&Shape::Triple(c, h, w));
+    if back != *t.as_triple() { return Err("get_triple(flatten(t)) is not t".into()); }
+    if c2 * h2 * w2 == n {
+        let r = t.clone().reshape(Shape::Triple(c2, h2, w2));
+        let d = r.as_triple();
+        if !(d.len() == c2 && d.iter().all(|x| x.len() == h2 && x.iter().all(|y| y.len() == w2))) { return Err("reshape: data extents differ from the requested shape".into()); }
+        if !matches!(r.shape, Shape::Triple(a, b, e) if (a, b, e) == (c2, h2, w2)) { return Err("reshape: recorded shape is not the requested one".into()); }
+        if r.get_flat() != seq { return Err("reshape changed the row-major sequence".into()); }
+        let rr = r.reshape(Shape::Triple(c, h, w));
+        if rr.as_triple() != t.as_triple() { return Err("reshape there and back is not the identity".into()); }
+        let v = t.clone().reshape(Shape::Single(n)).reshape(Shape::Triple(c2, h2, w2));
+        if v.get_flat() != seq { return Err("reshape via a flat tensor changed the sequence".into()); }
+    } else {
+        let refused = std::panic::catch_unwind(|| { let _ = t.clone().reshape(Shape::Triple(c2, h2, w2)); }).is_err();
+        if !refused { return Err("reshape to a different element count was accepted".into()); }
+    }
+    Ok(())
+}
+pub fn dispatch_reshape(cmd: &str, name: &str, arg: &str) -> Option<String> {
+    if name != "reshape.rowmajor" { return None; }
+    if std::env::var("VERIF_SHOW_PANIC").is_err() { std::panic::set_hook(Box::new(|_| {})); }
+    let fmt = |v: [usize; 6]| format!("{{\"from\":[{},{},{}],\"to\":[{},{},{}]}}", v[0], v[1], v[2], v[3], v[4], v[5]);
+    let one = |v: [usize; 6]| -> Result<(), String> {
+        match std::panic::catch_unwind(move || reshape_one(v[0], v[1], v[2], v[3], v[4], v[5])) { Ok(r) => r, Err(_) => Err("a valid reshape / flatten panicked".into()) }
+    };
+    if cmd == "run" {
+        let v: Vec<usize> = arg.split(|c: char| !c.is_ascii_digit()).filter(|x| !x.is_empty()).filter_map(|x| x.parse().ok()).collect();
+        if v.len() != 6 { return None; }
+        let a = [v[0], v[1], v[2], v[3], v[4], v[5]];
+        return Some(match one(a) { Ok(()) => format!("{{\"failed\":false,\"input\":{}}}", fmt(a)), Err(e) => format!("{{\"failed\":true,\"input\":{},\"detail\":{:?}}}", fmt(a), e) });
+    }
+    let mut tried = 0usize;
+    for c in 1..=3usize { for h in 1..=3usize { for w in 1..=4usize { for c2 in 1..=3usize { for h2 in 1..=4usize { for w2 in 1..=4usize {
+        tried += 1;
+        let a = [c, h, w, c2, h2, w2];
+        if let Err(e) = one(a) { return Some(format!("{{\"failed\":true,\"tried\":{},\"input\":{},\"detail\":{:?}}}", tried, fmt(a), e)); }
+    }}}}}}
     Some(format!("{{\"failed\":false,\"tried\":{}}}", tried))
 }
